@@ -195,6 +195,8 @@ def keyword_bridge(ctx, d, goals, violate):
     for i, ps in enumerate(methods):
         src.append(f"        pub fn m{i}(&self, " + ", ".join(f"{n}: i32" for n in ps) + ") -> i32 { 0 }")
     src += ["    }"]
+    # struct fields named after the same words: the C struct (alone, and embedded in the C++ header) has to escape them like parameters
+    src += ["    pub struct KwFields {"] + [f"        pub {n}: u8," for n in usable] + ["    }", "    impl KwFields { pub fn same(self) -> KwFields { self } }"]
     # methods *renamed* to keywords (a rename target is a string, so every word of the tables can be tried): the backend must escape the
     # name it ends up with, i.e. after the rename has been applied
     cppw = sorted(set(T["c_keywords"]) | set(T["cpp_extra_keywords"]))
@@ -250,6 +252,11 @@ def keyword_bridge(ctx, d, goals, violate):
             if r2.returncode != 0:
                 violate(f"direct:keywords:{backend}", {"what": f"{rfile} of a bridge whose methods are renamed to keywords does not compile / parse",
                                                        "compiler": (r2.stderr or r2.stdout)[-1200:]})
+        if backend in ("c", "cpp"):
+            r3 = e2e.syntax_only(os.path.join(out, "KwFields.hpp" if backend == "cpp" else "KwFields.h"), [out], std, cxx=(backend == "cpp"))
+            if r3.returncode != 0:
+                violate(f"direct:keywords:{backend}", {"what": f"the header of a struct whose fields are named after the words of the keyword tables does not compile as {std}",
+                                                       "compiler": (r3.stderr or r3.stdout)[-900:], "fields": usable[:12]})
         if backend == "js":
             r = sh(["node", "--check", os.path.join(out, file)], timeout=120)
         else:
